@@ -873,6 +873,27 @@ namespace fsw
             FS_SCOPE("insert", (pi == s && uses_self) || v == 13 || v == 14 || v >= 16);
             size_t len = model[s].size(), room = N - std::min(len, N);
             size_t ak = pos_in(st.c >> 11, len);                                  // own characters [ak, ak+an) as the source
+            if (Throwing && mode == M_C02 && v == 13 && ((st.d >> 14) & 3) == 0)
+            {
+                // The string is a field of a larger record and the counted source starts inside the string but runs on into
+                // the fields behind it - valid memory of the caller, far more characters than any string of this capacity
+                // can take.  The call has to be refused (length_error) without touching anything, whatever it does about
+                // the aliasing first.
+                struct Rec { FS s; CT behind[N + 24]; };
+                std::unique_ptr<Rec> rec(new Rec);
+                rec->s.assign(model[s].data(), model[s].size());
+                for (size_t i = 0; i < N + 24; ++i) rec->behind[i] = nz(mkch(st.b + i * 977, false));
+                size_t cnt = N + 2 + static_cast<size_t>(st.b % 8);
+                size_t at = pos_in(st.a, len);
+                bool refused = false;
+                try { rec->s.insert(at, static_cast<const CT*>(rec->s.data()) + ak, cnt); }
+                catch (const std::length_error&) { refused = true; }
+                if (!refused) viol("C02", "exception", "exc", "insert of " + std::to_string(cnt) + " characters (source inside the string, running on into the caller's record) into a string of capacity " + std::to_string(N) + " was not refused");
+                if (Str(rec->s.data(), rec->s.size()) != model[s]) viol("C02", "model", "unchanged", "a refused insert changed the string");
+                SIM_PROBE("aliasing_source_runs_on_into_the_callers_record");
+                check_all();
+                return;
+            }
             size_t an = std::min(cnt_clamp(st.c >> 23, len - ak), len - ak);
             if (over_terminator(st)) { an = len - ak + 1; SIM_PROBE("own_terminator_as_source_character"); }
             size_t idx = ((v >= 9 && v <= 12) || v == 15 || v >= 17) ? pos_in(st.a, len) : pos_any(st.a, len);
